@@ -2,7 +2,7 @@
 # run_all.sh [tier]: every check once on the current tree; one summary line per check
 tier=${1:-quick}
 for i in $(seq -w 1 20); do
-  s=$(date +%s); out=$(/verif/check C$i --tier $tier 2>&1); ec=$?; e=$(date +%s)
+  s=$(date +%s); out=$("$(cd "$(dirname "$0")/.." && pwd)"/check C$i --tier $tier 2>&1); ec=$?; e=$(date +%s)
   echo "C$i exit=$ec t=$((e-s))s viol=$(echo "$out" | grep -c '^VIOLATION') known=$(echo "$out" | grep -c '^KNOWN-FINDING')"
   echo "$out" | grep '^VIOLATION' | head -3
 done
